@@ -164,7 +164,7 @@ theorem buildOptions_sem (e : Ext) (p : Ctx) :
         | none =>
           intro h
           simp only at h ⊢
-          refine ⟨rfl, ?_⟩
+          refine ⟨trivial, ?_⟩
           simp only [credC, List.all_cons, hne, Bool.false_and, Bool.or_false, mComp] at h ⊢
           rw [h.2]
         | some opts =>
@@ -183,5 +183,252 @@ theorem buildOptions_sem (e : Ext) (p : Ctx) :
           simp only at h ⊢
           rw [h, optSem_append]
           simp [optSem, origOpt, credC, hne, mComp, Bool.and_assoc]
+
+
+/-! ### unification of one path -/
+
+theorem unifyCompound_ne_nil (p : Ctx) : ∀ (A B C : Compound), B ≠ [] → unifyCompound A B = some C → C ≠ [] := by
+  intro A
+  induction A with
+  | nil => intro B C hB h; simp [unifyCompound] at h; subst h; exact hB
+  | cons s A ih =>
+    intro B C hB h
+    unfold unifyCompound at h
+    split at h
+    · rename_i B' hB'
+      exact ih B' C (unifySimple_sem s B B' p hB').2 h
+    · cases h
+
+theorem unifyInto_sem (p : Ctx) :
+    ∀ (rest : List Compound) (base : Compound), base ≠ [] →
+      match unifyInto base rest with
+      | some u => mComp u p = (mComp base p && rest.all (mComp · p))
+      | none => (mComp base p && rest.all (mComp · p)) = false := by
+  intro rest
+  induction rest with
+  | nil => intro base _; simp [unifyInto]
+  | cons c rest ih =>
+    intro base hb
+    unfold unifyInto
+    cases hu : unifyCompound c base with
+    | none =>
+      simp only
+      have := unifyCompound_none p c base hb hu
+      simp only [List.all_cons]
+      cases h1 : mComp base p <;> cases h2 : mComp c p <;> simp_all
+    | some b =>
+      simp only
+      have hb' := unifyCompound_ne_nil p c base b hb hu
+      have hs := unifyCompound_sem p c base b hu
+      have := ih b hb'
+      revert this
+      cases unifyInto b rest with
+      | none =>
+        intro h; simp only at h ⊢
+        rw [hs] at h
+        simp only [List.all_cons]
+        cases h1 : mComp base p <;> cases h2 : mComp c p <;> simp_all
+      | some u =>
+        intro h; simp only at h ⊢
+        rw [h, hs]
+        simp only [List.all_cons]
+        cases mComp base p <;> cases mComp c p <;> simp
+
+theorem all_filter_split {α : Type} (g f : α → Bool) (l : List α) :
+    l.all f = ((l.filter g).all f && (l.filter (fun x => !g x)).all f) := by
+  induction l with
+  | nil => simp
+  | cons x xs ih =>
+    simp only [List.all_cons, List.filter_cons, ih]
+    cases g x <;> simp [Bool.and_assoc, Bool.and_left_comm]
+
+theorem mComp_flatMap (os : List Opt) (p : Ctx) :
+    mComp (os.flatMap (·.comp)) p = os.all (fun o => mComp o.comp p) := by
+  induction os with
+  | nil => simp [mComp]
+  | cons o os ih => simp [List.flatMap_cons, mComp_append, ih]
+
+theorem unifyAll_sem (O : Compound) (N : List Compound) (p : Ctx) (hN : ∀ c ∈ N, c ≠ [])
+    (hON : O ≠ [] ∨ N ≠ []) :
+    match unifyAll (if O.isEmpty then N else O :: N) with
+    | some u => mComp u p = (mComp O p && N.all (mComp · p))
+    | none => (mComp O p && N.all (mComp · p)) = false := by
+  cases O with
+  | nil =>
+    simp only [List.isEmpty_nil, if_true]
+    cases N with
+    | nil => simp at hON
+    | cons base rest =>
+      simp only [unifyAll]
+      have := unifyInto_sem p rest base (hN base (by simp))
+      revert this
+      cases unifyInto base rest <;> simp [mComp]
+  | cons s ss =>
+    simp only [List.isEmpty_cons, Bool.false_eq_true, if_false, unifyAll]
+    have := unifyInto_sem p N (s :: ss) (by simp)
+    revert this
+    cases unifyInto (s :: ss) N <;> simp
+
+/-- a path that is not the first one: its unification matches exactly the conjunction of its options -/
+theorem unifyPath_sem (path : List Opt) (p : Ctx) (hne : ∀ o ∈ path, o.comp ≠ []) (hp : path ≠ []) :
+    match unifyPath path with
+    | some u => mComp u p = path.all (fun o => mComp o.comp p)
+    | none => path.all (fun o => mComp o.comp p) = false := by
+  unfold unifyPath
+  rw [all_filter_split (·.isOriginal) (fun o => mComp o.comp p) path]
+  have hO : mComp ((path.filter (·.isOriginal)).flatMap (·.comp)) p = (path.filter (·.isOriginal)).all (fun o => mComp o.comp p) :=
+    mComp_flatMap _ p
+  have hN : ((path.filter (fun o => !o.isOriginal)).map (·.comp)).all (mComp · p) =
+      (path.filter (fun o => !o.isOriginal)).all (fun o => mComp o.comp p) := by
+    simp [List.all_map, Function.comp_def]
+  have hNne : ∀ c ∈ (path.filter (fun o => !o.isOriginal)).map (·.comp), c ≠ [] := by
+    intro c hc
+    simp only [List.mem_map, List.mem_filter] at hc
+    obtain ⟨o, ⟨ho, _⟩, rfl⟩ := hc
+    exact hne o ho
+  have hON : (path.filter (·.isOriginal)).flatMap (·.comp) ≠ [] ∨ (path.filter (fun o => !o.isOriginal)).map (·.comp) ≠ [] := by
+    cases path with
+    | nil => exact absurd rfl hp
+    | cons o os =>
+      have ho := hne o (by simp)
+      by_cases hoo : o.isOriginal = true
+      · left
+        simp only [List.filter_cons, hoo, if_true, List.flatMap_cons]
+        intro h; exact ho (List.append_eq_nil_iff.1 h).1
+      · right
+        simp [List.filter_cons, hoo]
+  have := unifyAll_sem _ _ p hNne hON
+  rw [hO, hN] at this
+  exact this
+
+
+/-! ### `extend_compound` for one extension -/
+
+theorem paths_foldl_length {α : Type} :
+    ∀ (choices : List (List α)) (ps : List (List α)) (n : Nat),
+      (∀ path ∈ ps, path.length = n) →
+      ∀ path ∈ choices.foldl (fun ps choice => choice.flatMap fun o => ps.map (· ++ [o])) ps,
+        path.length = n + choices.length := by
+  intro choices
+  induction choices with
+  | nil => intro ps n h; simpa using h
+  | cons ch rest ih =>
+    intro ps n h path hp
+    simp only [List.foldl_cons] at hp
+    have := ih _ (n + 1) (by
+      intro q hq
+      simp only [List.mem_flatMap, List.mem_map] at hq
+      obtain ⟨o, _, pre, hpre, rfl⟩ := hq
+      simp [h pre hpre]) path hp
+    simp only [List.length_cons]; omega
+
+theorem paths_length {α : Type} (choices : List (List α)) : ∀ path ∈ paths choices, path.length = choices.length := by
+  intro path hp
+  have := paths_foldl_length choices [[]] 0 (by simp) path hp
+  simpa using this
+
+def GoodChoice (ch : List Opt) : Prop := ch ≠ [] ∧ ∀ o ∈ ch, o.comp ≠ []
+
+theorem good_append (v : List (List Opt)) (x : List Opt) (hv : ∀ ch ∈ v, GoodChoice ch) (hx : GoodChoice x) :
+    ∀ ch ∈ v ++ [x], GoodChoice ch := by
+  intro ch hch
+  rcases List.mem_append.1 hch with h | h
+  · exact hv ch h
+  · simp only [List.mem_singleton] at h; subst h; exact hx
+
+theorem good_orig (c : Compound) (hc : c ≠ []) : GoodChoice [origOpt c] :=
+  ⟨by simp, by intro o ho; simp only [List.mem_singleton] at ho; subst ho; simpa [origOpt] using hc⟩
+
+theorem good_entry (e : Ext) (hE : e.extender ≠ []) (s : Simple) : GoodChoice [origOpt [s], extOpt e] :=
+  ⟨by simp, by
+    intro o ho
+    simp only [List.mem_cons, List.not_mem_nil, or_false] at ho
+    rcases ho with rfl | rfl
+    · simp [origOpt]
+    · simpa [extOpt] using hE⟩
+
+theorem buildOptions_ne (e : Ext) (hE : e.extender ≠ []) :
+    ∀ (rest pre : Compound) (acc : Option (List (List Opt))),
+      (∀ v, acc = some v → ∀ ch ∈ v, GoodChoice ch) →
+      ∀ opts, buildOptions [e] pre rest acc = some opts → ∀ ch ∈ opts, GoodChoice ch := by
+  intro rest
+  induction rest with
+  | nil => intro pre acc h opts ho; simp only [buildOptions] at ho; exact h opts ho
+  | cons s rest ih =>
+    intro pre acc h opts ho
+    unfold buildOptions at ho
+    simp only [extendersOf_single] at ho
+    by_cases hs : e.target = s
+    · simp only [hs, if_true, List.isEmpty_cons, Bool.false_eq_true, if_false, List.map_cons, List.map_nil] at ho
+      cases acc with
+      | none =>
+        simp only at ho
+        refine ih _ _ ?_ opts ho
+        intro v hv
+        injection hv with hv; subst hv
+        apply good_append _ _ _ (good_entry e hE s)
+        intro ch hch
+        cases pre with
+        | nil => simp at hch
+        | cons x xs =>
+          simp only [List.isEmpty_cons, Bool.false_eq_true, if_false, List.mem_singleton] at hch
+          subst hch; exact good_orig _ (by simp)
+      | some v =>
+        simp only at ho
+        refine ih _ _ ?_ opts ho
+        intro v' hv
+        injection hv with hv; subst hv
+        exact good_append _ _ (h v rfl) (good_entry e hE s)
+    · simp only [hs, if_false, List.isEmpty_nil, if_true] at ho
+      cases acc with
+      | none => simp only at ho; exact ih _ _ (by intro v hv; cases hv) opts ho
+      | some v =>
+        simp only at ho
+        refine ih _ _ ?_ opts ho
+        intro v' hv
+        injection hv with hv; subst hv
+        exact good_append _ _ (h v rfl) (good_orig [s] (by simp))
+
+theorem paths_foldl_ne {α : Type} :
+    ∀ (choices : List (List α)) (ps : List (List α)), ps ≠ [] → (∀ ch ∈ choices, ch ≠ []) →
+      choices.foldl (fun ps choice => choice.flatMap fun o => ps.map (· ++ [o])) ps ≠ [] := by
+  intro choices
+  induction choices with
+  | nil => intro ps h _; simpa using h
+  | cons ch rest ih =>
+    intro ps hps h
+    simp only [List.foldl_cons]
+    apply ih
+    · have hch := h ch (by simp)
+      cases ch with
+      | nil => exact absurd rfl hch
+      | cons o os =>
+        cases ps with
+        | nil => exact absurd rfl hps
+        | cons q qs => simp [List.flatMap_cons]
+    · intro ch' hch'; exact h ch' (by simp [hch'])
+
+theorem paths_ne_nil {α : Type} (choices : List (List α)) (h : ∀ ch ∈ choices, ch ≠ []) : paths choices ≠ [] :=
+  paths_foldl_ne choices [[]] (by simp) h
+
+theorem matchesComplex_single (u : Compound) (p : Ctx) : matchesComplex [.compound u] p = mComp u p := by
+  simp [matchesComplex, norm, fwd, revGo, mRC, mSteps]
+
+theorem filterMap_unify_any (others : List (List Opt)) (p : Ctx)
+    (h : ∀ path ∈ others, (∀ o ∈ path, o.comp ≠ []) ∧ path ≠ []) :
+    (others.filterMap fun q => (unifyPath q).map fun u => (q, u)).any (fun pu => mComp pu.2 p) =
+      others.any (fun path => path.all fun o => mComp o.comp p) := by
+  induction others with
+  | nil => simp
+  | cons q qs ih =>
+    have hq := h q (by simp)
+    have := unifyPath_sem q p hq.1 hq.2
+    have ih' := ih (fun path hp => h path (by simp [hp]))
+    simp only [List.filterMap_cons, List.any_cons]
+    revert this
+    cases unifyPath q with
+    | none => intro h1; simp only [Option.map_none] ; simp only at h1; rw [h1, ih']; simp
+    | some u => intro h1; simp only [Option.map_some, List.any_cons] ; simp only at h1; rw [h1, ih']
+
 
 end Grass.Extend
